@@ -38,6 +38,16 @@ def verify_function(prog, spec, con, mode='seq', options=None):
         nreq += 1
     ex.covers.append(('cover/%s/requires' % prog.short(con.fn), list(st.pc)))
     old = st.copy()
+    # lets that only speak about the entry state are available to loop / traversal invariants
+    for c in con.clauses:
+        if c.kind == 'let':
+            try:
+                env[c.extra['var']] = ('val', spec.eval(ex, c.expr, env, old, old))
+            except EngineError:
+                pass
+        elif c.kind in ('calls', 'ensures'):
+            break
+    ex.fn_old = old
     short = prog.short(con.fn)
 
     def at_return(stf, res):
@@ -53,7 +63,7 @@ def verify_function(prog, spec, con, mode='seq', options=None):
                 spec.calls_callee(ex, c, env2, stf, old, short)
             elif c.kind == 'ensures':
                 g = spec.eval_bool(ex, c.expr, env2, stf, old)
-                ex.oblige(stf, '%s/%s/%s#%s' % (ex.tagstr(c), short, c.label or 'post%d' % c.line, '.'.join(stf.pathid)), g,
+                ex.oblige(stf, '%s/%s/%s#%s' % (ex.tagstr(c), short, c.label or 'post%d' % c.ordinal, '.'.join(stf.pathid)), g,
                           tags=c.tags, where='%s:%d' % (c.file, c.line), kind='post')
         spec.frame_check(ex, con, env2, stf, old, short)
 
@@ -107,9 +117,24 @@ def has_quantifier(terms):
     return False
 
 
+def solve(assumptions, neg_goal, timeout_ms):
+    s = z3.Solver()
+    s.set('timeout', int(timeout_ms))
+    s.add(*assumptions)
+    s.add(neg_goal)
+    try:
+        res = s.check()
+        reason = s.reason_unknown() if res == z3.unknown else ''
+    except z3.Z3Exception as e:
+        res, reason = z3.unknown, str(e)
+    return s, res, reason
+
+
 def discharge(obls, timeout_ms=10000, external=True):
-    """Returns list of Result. Strategy: z3 (python API, z3 5.1.0) first; on unknown, dump SMT-LIB and race
-    /usr/bin/z3 (4.8.12) and cvc5."""
+    """Returns list of Result.  Stages: (1) z3 5.1.0 (python API) on the VC as generated; (2) goal skolemised and the
+    quantified hypotheses instantiated at the ground terms of the query (only instances of assumed formulas are added);
+    (3) the stage-2 query dumped as SMT-LIB and raced on /usr/bin/z3 (4.8.12) and cvc5."""
+    import inst as INST
     results = []
     for o in obls:
         r = Result(o)
@@ -119,33 +144,84 @@ def discharge(obls, timeout_ms=10000, external=True):
             r.solver = 'trivial'
             results.append(r)
             continue
-        s = z3.Solver()
-        s.set('timeout', timeout_ms)
-        for a in o.assumptions:
-            s.add(a)
-        s.add(z3.Not(o.goal))
-        try:
-            res = s.check()
-        except z3.Z3Exception as e:
-            res = z3.unknown
-            r.reason = str(e)
-        r.time = time.time() - t0
+        quant = has_quantifier(list(o.assumptions) + [o.goal])
         r.solver = 'z3-5.1.0'
+        done = False
+        first_to = timeout_ms if not quant else min(timeout_ms, 1500)
+        s, res, reason = solve(o.assumptions, z3.Not(o.goal), first_to)
         if res == z3.unsat:
             r.status = 'unsat'
+            done = True
         elif res == z3.sat:
             r.status = 'sat'
             r.model = model_to_dict(s.model())
-        else:
-            r.status = 'unknown'
-            r.reason = r.reason or s.reason_unknown()
-            if external:
-                smt = s.to_smt2()
-                st2, solver2, t2 = race_external(smt, timeout_ms / 1000.0)
-                r.time += t2
-                if st2 in ('unsat', 'sat'):
-                    r.status = st2
-                    r.solver = solver2
+            done = True
+        if quant and not done:
+            # stage A: skolemised goal, ground instances only (quantifier-free; sound for proving)
+            try:
+                pairs = INST.flatten(o.goal)
+                allok = True
+                for (extra, g) in pairs:
+                    if INST.contains_quant(g):
+                        allok = False
+                        break
+                    asm = list(o.assumptions) + list(extra)
+                    qf = INST.drop_quantified(asm)
+                    res2 = z3.unknown
+                    # progressively wider candidate sets: skolem-derived terms, then index terms / constants, then all
+                    for maxrank in (0, 1, 9):
+                        insts = INST.instantiate(asm, [g] + list(extra), maxrank=maxrank)
+                        s2, res2, reason2 = solve(qf + insts, z3.Not(g), timeout_ms)
+                        if res2 == z3.unsat:
+                            break
+                    if res2 != z3.unsat:
+                        allok = False
+                        break
+                if allok:
+                    r.status = 'unsat'
+                    r.solver = 'z3-5.1.0+inst'
+                    done = True
+            except z3.Z3Exception as e:
+                r.reason = str(e)
+        if not done:
+            if True:
+                r.status = 'unknown'
+                r.reason = reason
+                if quant:
+                    # stage C: instances + quantified hypotheses, then the other solvers on that query
+                    try:
+                        pairs = INST.flatten(o.goal)
+                        allok = True
+                        last_s = None
+                        for (extra, g) in pairs:
+                            asm = list(o.assumptions) + list(extra)
+                            insts = INST.instantiate(asm, [g] + list(extra))
+                            s2, res2, reason2 = solve(asm + insts, z3.Not(g), timeout_ms)
+                            last_s = s2
+                            if res2 != z3.unsat:
+                                allok = False
+                                if res2 == z3.sat:
+                                    r.model = model_to_dict(s2.model())
+                                    r.reason = 'sat after ground instantiation (candidate counterexample)'
+                                else:
+                                    r.reason = reason2
+                                break
+                        if allok:
+                            r.status = 'unsat'
+                            r.solver = 'z3-5.1.0+inst'
+                        elif external and last_s is not None and len(pairs) == 1:
+                            st2, solver2, t2 = race_external(last_s.to_smt2(), timeout_ms / 1000.0)
+                            if st2 == 'unsat':
+                                r.status = 'unsat'
+                                r.solver = solver2 + '+inst'
+                    except z3.Z3Exception as e:
+                        r.reason = str(e)
+                elif external:
+                    st2, solver2, t2 = race_external(s.to_smt2(), timeout_ms / 1000.0)
+                    if st2 in ('unsat', 'sat'):
+                        r.status = st2
+                        r.solver = solver2
+        r.time = time.time() - t0
         results.append(r)
     return results
 
@@ -197,28 +273,26 @@ def run_contract(prog, spec, con, mode, options=None):
 
 
 def check_covers(ex, timeout_ms):
-    """Vacuity guard: the precondition is satisfiable and at least one return is reachable."""
+    """Vacuity guard: the precondition, every loop body / traversal body and at least one return are reachable
+    (their assumptions are not provably contradictory).  A cover name fails only if ALL its instances are unsat."""
+    import inst as INST
+    groups = {}
+    for (name, asm) in ex.covers:
+        key = name.split('#')[0]
+        groups.setdefault(key, []).append(asm)
     out = []
-    req = [c for c in ex.covers if c[0].endswith('/requires')]
-    rets = [c for c in ex.covers if '/return#' in c[0]]
-    for (name, asm) in req:
-        s = z3.Solver()
-        s.set('timeout', min(timeout_ms, 5000))
-        s.add(*asm)
-        out.append((name, str(s.check())))
-    if rets:
-        ok = 'unsat'
-        for (name, asm) in rets:
+    for key, lst in groups.items():
+        status = 'unsat'
+        for asm in lst[:12]:
+            # quantifier-free part only (fast): detects contradictory path conditions / preconditions
             s = z3.Solver()
-            s.set('timeout', min(timeout_ms, 5000))
-            s.add(*asm)
-            r = str(s.check())
-            if r == 'sat':
-                ok = 'sat'
+            s.set('timeout', min(timeout_ms, 2000))
+            s.add(*INST.drop_quantified(asm))
+            r = s.check()
+            if r != z3.unsat:
+                status = 'sat'
                 break
-            if r == 'unknown':
-                ok = 'unknown'
-        out.append((rets[0][0].split('#')[0], ok if ok != 'unknown' else 'sat'))
+        out.append((key, status))
     return out
 
 
